@@ -117,4 +117,315 @@ theorem readSet_encode_append (gs : List Nat) (h : Valid gs) (tail : Bytes) :
   exact readSetW_append_of_ok _ _ _ (readSetW_encodeW gs h)
 
 end Cov
+
+namespace Gdef
+open SfntV SfntV.Otl
+
+/-- a class definition table of the domain: empty, or well-typed and non-empty -/
+def ClassGood (m : ClassDef.Tab) : Prop := m = [] ∨ ClassDef.TabOk m
+
+def mkPart (m : ClassDef.Tab) : ClassPart := ⟨ClassDef.append m, ClassDef.appendLen m⟩
+
+/-- what `Append` writes for a good table: words that read back as the table, of the declared size -/
+theorem classPart_spec (m : ClassDef.Tab) (hm : ClassGood m) (cb : Bytes) (h : ClassDef.append m = .ok cb) :
+    cb.length = ClassDef.appendLen m ∧ ∃ ws es, cb = wordsToBytes ws ∧ (∀ w ∈ ws, w < 65536) ∧
+      ClassDef.readW ws = .ok es ∧ ∀ g, ClassDef.classOf es g = ClassDef.get m g := by
+  rcases hm with rfl | hm
+  · have : cb = wordsToBytes [2, 0] := by
+      have : ClassDef.append [] = .ok (wordsToBytes [2, 0]) := by decide
+      rw [this] at h; simpa using h.symm
+    subst this
+    exact ⟨by decide, [2, 0], [], rfl, by decide, by decide, fun g => rfl⟩
+  · have d := ClassDef.dom_of_tab m hm
+    have hne : m.isEmpty = false := by
+      cases m with
+      | nil => exact absurd rfl hm.nonempty
+      | cons _ _ => rfl
+    unfold ClassDef.append ClassDef.appendF at h
+    unfold ClassDef.appendLen
+    rw [hne] at h ⊢
+    cases hw : ClassDef.appendWF false (ClassDef.get m) (ClassDef.minGid m) (ClassDef.maxGid m) with
+    | ok ws =>
+      rw [hw] at h
+      simp only [Outcome.ok.injEq] at h
+      subst h
+      have sh := ClassDef.appendWF_shape _ _ _ d ws hw
+      obtain ⟨es, h1, h2⟩ := ClassDef.shape_read _ _ _ d ws sh
+      refine ⟨by rw [length_wordsToBytes]; exact ClassDef.shape_length _ _ _ ws sh, ws, es, rfl,
+        ClassDef.shape_lt _ _ _ d ws sh, h1, fun g => (h2 g).1⟩
+    | err e => rw [hw] at h; simp at h
+    | panic s => rw [hw] at h; simp at h
+
+/-- a class definition table is read back from where it was put -/
+theorem classRead_at (pre post : Bytes) (ws : List Nat) (es : List (Nat × Nat))
+    (hlt : ∀ w ∈ ws, w < 65536) (hr : ClassDef.readW ws = .ok es) :
+    ClassDef.read ((pre ++ wordsToBytes ws ++ post).drop pre.length) = .ok es := by
+  rw [List.append_assoc, List.drop_left]
+  unfold ClassDef.read
+  rw [bytesToWords_append _ hlt]
+  exact ClassDef.readW_append_of_ok _ _ _ hr
+
+/-! mark glyph sets -/
+
+/-- the byte offsets of the coverage tables -/
+def offsList : List (List Nat) → Nat → List Nat
+  | [], _ => []
+  | s :: ss, off => off :: offsList ss (off + 2 * (Cov.encodeW s).length)
+
+theorem setOffsets_spec : ∀ (ss : List (List Nat)) (off : Nat) (ws : List Nat),
+    (∀ s ∈ ss, Cov.Valid s) → setOffsets ss off = .ok ws →
+    off + (ss.map fun s => 2 * (Cov.encodeW s).length).sum < 4294967296 →
+    ws.length = 2 * ss.length ∧ (∀ w ∈ ws, w < 65536) ∧ pairUp ws = offsList ss off
+  | [], _, ws, _, h, _ => by simp [setOffsets] at h; subst h; simp [pairUp, offsList]
+  | s :: ss, off, ws, hv, h, hfit => by
+    have hs := hv s (by simp)
+    simp only [setOffsets, Cov.encodeLen_eq s hs, ← Cov.encodeW_length s hs] at h
+    simp only [List.map_cons, List.sum_cons] at hfit
+    cases h2 : setOffsets ss (off + 2 * (Cov.encodeW s).length) with
+    | ok r =>
+      rw [h2] at h
+      simp only [Outcome.ok.injEq] at h
+      subst h
+      obtain ⟨i1, i2, i3⟩ := setOffsets_spec ss _ r (fun s' hs' => hv s' (by simp [hs'])) h2 (by omega)
+      refine ⟨by simp [i1]; omega, ?_, ?_⟩
+      · intro w hw
+        simp only [List.mem_cons] at hw
+        rcases hw with rfl | rfl | hw
+        · exact w16_lt _
+        · exact w16_lt _
+        · exact i2 w hw
+      · simp only [pairUp, offsList, i3]
+        congr 1
+        rw [w16_of_lt (by omega)]
+        unfold w16
+        have := Nat.div_add_mod off 65536
+        omega
+    | err e => rw [h2] at h; simp at h
+    | panic p => rw [h2] at h; simp at h
+
+theorem setsBytes_spec : ∀ (ss : List (List Nat)) (cb : Bytes), (∀ s ∈ ss, Cov.Valid s) →
+    setsBytes ss = .ok cb → cb = ss.flatMap fun s => wordsToBytes (Cov.encodeW s)
+  | [], cb, _, h => by simp [setsBytes] at h; simp [← h]
+  | s :: ss, cb, hv, h => by
+    simp only [setsBytes, Cov.encode_eq s (hv s (by simp))] at h
+    cases h2 : setsBytes ss with
+    | ok r =>
+      rw [h2] at h
+      simp only [Outcome.ok.injEq] at h
+      rw [← h, setsBytes_spec ss r (fun s' hs' => hv s' (by simp [hs'])) h2]
+      simp
+    | err e => rw [h2] at h; simp at h
+    | panic p => rw [h2] at h; simp at h
+
+/-- every coverage set is read back from its offset -/
+theorem readSets_spec (pos : Nat) : ∀ (ss : List (List Nat)) (pre post : Bytes) (off : Nat),
+    (∀ s ∈ ss, Cov.Valid s) → pos + off = pre.length →
+    readSets (pre ++ (ss.flatMap fun s => wordsToBytes (Cov.encodeW s)) ++ post) pos (offsList ss off) = .ok ss
+  | [], _, _, _, _, _ => rfl
+  | s :: ss, pre, post, off, hv, hp => by
+    simp only [offsList, readSets, List.flatMap_cons]
+    have h1 : Cov.readSet ((pre ++ (wordsToBytes (Cov.encodeW s) ++
+        ss.flatMap fun s => wordsToBytes (Cov.encodeW s)) ++ post).drop (pos + off)) = .ok s := by
+      rw [hp, List.append_assoc, List.drop_left, List.append_assoc]
+      exact Cov.readSet_encode_append s (hv s (by simp)) _
+    rw [h1]
+    have ih := readSets_spec pos ss (pre ++ wordsToBytes (Cov.encodeW s)) post
+      (off + 2 * (Cov.encodeW s).length) (fun s' hs' => hv s' (by simp [hs']))
+      (by rw [List.length_append, length_wordsToBytes]; omega)
+    have e : pre ++ wordsToBytes (Cov.encodeW s) ++ (ss.flatMap fun s => wordsToBytes (Cov.encodeW s)) ++ post =
+        pre ++ (wordsToBytes (Cov.encodeW s) ++ ss.flatMap fun s => wordsToBytes (Cov.encodeW s)) ++ post := by
+      simp
+    rw [e] at ih
+    rw [ih]
+
+/-- how a written class definition table (or its absence) must come back -/
+def ClassMatch : Option ClassDef.Tab → Option (List (Nat × Nat)) → Prop
+  | none, none => True
+  | some m, some es => ∀ g, ClassDef.classOf es g = ClassDef.get m g
+  | _, _ => False
+
+theorem readClassAt_spec (p : Option ClassDef.Tab) (hp : ∀ m, p = some m → ClassGood m)
+    (pre post B : Bytes) (hB : outBytes (p.map mkPart) = .ok B) (hpre : 0 < pre.length) :
+    B.length + pre.length = (partOff (p.map mkPart) pre.length).2 ∧
+    ∃ r, readClassAt (pre ++ B ++ post) (partOff (p.map mkPart) pre.length).1 = .ok r ∧ ClassMatch p r := by
+  cases p with
+  | none =>
+    simp only [Option.map_none, outBytes, Outcome.ok.injEq] at hB
+    subst hB
+    exact ⟨by simp [partOff], none, by simp [partOff, readClassAt], trivial⟩
+  | some m =>
+    simp only [Option.map_some, outBytes, mkPart] at hB
+    obtain ⟨hlen, ws, es, rfl, hlt, hr, hcls⟩ := classPart_spec m (hp m rfl) B hB
+    have hne : (pre.length != 0) = true := by simp only [bne_iff_ne, ne_eq]; omega
+    refine ⟨?_, some es, ?_, hcls⟩
+    · show (wordsToBytes ws).length + pre.length = pre.length + ClassDef.appendLen m
+      omega
+    · simp only [Option.map_some, partOff, readClassAt, hne, if_true, classRead_at pre post ws es hlt hr]
+
+/-- GDEF tables without mark glyph sets (version 1.0) -/
+theorem roundtrip_noSets (gcT macT : Option ClassDef.Tab)
+    (hg : ∀ m, gcT = some m → ClassGood m) (hm : ∀ m, macT = some m → ClassGood m)
+    (b : Bytes) (hb : encode (gcT.map mkPart) (macT.map mkPart) none = .ok b) :
+    ∃ r, read b = .ok r ∧ ClassMatch gcT r.gc ∧ ClassMatch macT r.mac ∧ r.sets = none := by
+  simp only [encode, Option.isSome_none, Bool.false_eq_true, if_false, List.append_nil] at hb
+  split at hb
+  · simp at hb
+  rename_i hfit
+  simp only [not_or, Nat.not_lt] at hfit
+  cases hB1 : outBytes (gcT.map mkPart) with
+  | err e => rw [hB1] at hb; cases hB2 : outBytes (macT.map mkPart) <;> rw [hB2] at hb <;> simp at hb
+  | panic p => rw [hB1] at hb; cases hB2 : outBytes (macT.map mkPart) <;> rw [hB2] at hb <;> simp at hb
+  | ok B1 =>
+    cases hB2 : outBytes (macT.map mkPart) with
+    | err e => rw [hB1, hB2] at hb; simp at hb
+    | panic p => rw [hB1, hB2] at hb; simp at hb
+    | ok B2 =>
+      rw [hB1, hB2] at hb
+      simp only [Outcome.ok.injEq] at hb
+      -- header: six words
+      have hH : (wordsToBytes [1, 0, w16 (partOff (gcT.map mkPart) 12).1, 0, 0,
+          w16 (partOff (macT.map mkPart) (partOff (gcT.map mkPart) 12).2).1]).length = 12 := by
+        rw [length_wordsToBytes]; rfl
+      obtain ⟨hl1, r1, hr1, hm1⟩ := readClassAt_spec gcT hg _ (B2) B1 hB1 (by rw [hH]; omega)
+      rw [hH] at hl1 hr1
+      have hgoff : (partOff (gcT.map mkPart) 12).1 < 65536 := by
+        cases gcT <;> simp [partOff]
+      obtain ⟨hl2, r2, hr2, hm2⟩ := readClassAt_spec macT hm
+        (wordsToBytes [1, 0, w16 (partOff (gcT.map mkPart) 12).1, 0, 0,
+          w16 (partOff (macT.map mkPart) (partOff (gcT.map mkPart) 12).2).1] ++ B1) [] B2 hB2
+        (by rw [List.length_append, hH]; omega)
+      rw [List.length_append, hH] at hl2 hr2
+      have e12 : 12 + B1.length = (partOff (gcT.map mkPart) 12).2 := by omega
+      rw [e12] at hr2
+      simp only [List.append_nil] at hr2
+      have hw : bytesToWords (wordsToBytes [1, 0, w16 (partOff (gcT.map mkPart) 12).1, 0, 0,
+          w16 (partOff (macT.map mkPart) (partOff (gcT.map mkPart) 12).2).1] ++ (B1 ++ B2)) =
+          [1, 0, w16 (partOff (gcT.map mkPart) 12).1, 0, 0,
+            w16 (partOff (macT.map mkPart) (partOff (gcT.map mkPart) 12).2).1] ++ bytesToWords (B1 ++ B2) := by
+        rw [bytesToWords_append _ (by
+          intro w hw
+          simp only [List.mem_cons, List.not_mem_nil, or_false] at hw
+          rcases hw with rfl | rfl | rfl | rfl | rfl | rfl <;> first | decide | exact w16_lt _)]
+      have hb' : wordsToBytes [1, 0, w16 (partOff (gcT.map mkPart) 12).1, 0, 0,
+          w16 (partOff (macT.map mkPart) (partOff (gcT.map mkPart) 12).2).1] ++ (B1 ++ B2) = b := hb
+      rw [List.append_assoc, hb'] at hr1 hr2
+      rw [hb'] at hw
+      refine ⟨⟨r1, r2, none⟩, ?_, hm1, hm2, rfl⟩
+      simp only [read, hw, List.cons_append, List.nil_append]
+      rw [w16_of_lt hgoff, w16_of_lt (by omega), hr1, hr2]
+      simp [readMgs]
+
+/-- GDEF tables with mark glyph sets (version 1.2) -/
+theorem roundtrip_sets (gcT macT : Option ClassDef.Tab) (ss : List (List Nat))
+    (hg : ∀ m, gcT = some m → ClassGood m) (hm : ∀ m, macT = some m → ClassGood m)
+    (hv : ∀ s ∈ ss, Cov.Valid s) (hn : ss.length < 65536)
+    (hsz : 4 + 4 * ss.length + (ss.map fun s => 2 * (Cov.encodeW s).length).sum < 4294967296)
+    (b : Bytes) (hb : encode (gcT.map mkPart) (macT.map mkPart) (some ss) = .ok b) :
+    ∃ r, read b = .ok r ∧ ClassMatch gcT r.gc ∧ ClassMatch macT r.mac ∧ r.sets = some ss := by
+  simp only [encode, Option.isSome_some, if_true] at hb
+  split at hb
+  rotate_left
+  · simp at hb
+  · simp at hb
+  split at hb
+  · simp at hb
+  rename_i hfit
+  simp only [not_or, Nat.not_lt] at hfit
+  cases hB1 : outBytes (gcT.map mkPart) with
+  | err e => rw [hB1] at hb; cases hB2 : outBytes (macT.map mkPart) <;> rw [hB2] at hb <;> simp at hb
+  | panic p => rw [hB1] at hb; cases hB2 : outBytes (macT.map mkPart) <;> rw [hB2] at hb <;> simp at hb
+  | ok B1 =>
+    cases hB2 : outBytes (macT.map mkPart) with
+    | err e => rw [hB1, hB2] at hb; simp at hb
+    | panic p => rw [hB1, hB2] at hb; simp at hb
+    | ok B2 =>
+      rw [hB1, hB2] at hb
+      simp only at hb
+      cases hso : setOffsets ss (4 + 4 * ss.length) with
+      | err e => rw [hso] at hb; cases hsb : setsBytes ss <;> rw [hsb] at hb <;> simp at hb
+      | panic p => rw [hso] at hb; cases hsb : setsBytes ss <;> rw [hsb] at hb <;> simp at hb
+      | ok offs =>
+        cases hsb : setsBytes ss with
+        | err e => rw [hso, hsb] at hb; simp at hb
+        | panic p => rw [hso, hsb] at hb; simp at hb
+        | ok cb =>
+          rw [hso, hsb] at hb
+          simp only [Outcome.ok.injEq] at hb
+          obtain ⟨hol, holt, hpair⟩ := setOffsets_spec ss _ offs hv hso hsz
+          have hcb := setsBytes_spec ss cb hv hsb
+          -- abbreviations
+          generalize hG : (partOff (gcT.map mkPart) 14) = G at hb hfit
+          generalize hM : (partOff (macT.map mkPart) G.2) = M at hb hfit
+          have hH : (wordsToBytes ([1, 2, w16 G.1, 0, 0, w16 M.1] ++ [w16 M.2])).length = 14 := by
+            rw [length_wordsToBytes]; rfl
+          have hgoff : G.1 < 65536 := by rw [← hG]; cases gcT <;> simp [partOff]
+          obtain ⟨hl1, r1, hr1, hm1⟩ := readClassAt_spec gcT hg
+            (wordsToBytes ([1, 2, w16 G.1, 0, 0, w16 M.1] ++ [w16 M.2]))
+            (B2 ++ (wordsToBytes ([1, w16 ss.length] ++ offs) ++ cb)) B1 hB1 (by rw [hH]; omega)
+          rw [hH, hG] at hl1 hr1
+          obtain ⟨hl2, r2, hr2, hm2⟩ := readClassAt_spec macT hm
+            (wordsToBytes ([1, 2, w16 G.1, 0, 0, w16 M.1] ++ [w16 M.2]) ++ B1)
+            (wordsToBytes ([1, w16 ss.length] ++ offs) ++ cb) B2 hB2
+            (by rw [List.length_append, hH]; omega)
+          rw [List.length_append, hH] at hl2 hr2
+          have e14 : 14 + B1.length = G.2 := by omega
+          rw [e14, hM] at hl2 hr2
+          have hb' : wordsToBytes ([1, 2, w16 G.1, 0, 0, w16 M.1] ++ [w16 M.2]) ++ B1 ++ B2 ++
+              wordsToBytes ([1, w16 ss.length] ++ offs) ++ cb = b := hb
+          have hw : bytesToWords b = [1, 2, w16 G.1, 0, 0, w16 M.1, w16 M.2] ++
+              bytesToWords (B1 ++ B2 ++ wordsToBytes ([1, w16 ss.length] ++ offs) ++ cb) := by
+            rw [← hb']
+            simp only [List.append_assoc]
+            rw [bytesToWords_append _ (by
+              intro w hw
+              simp only [List.cons_append, List.nil_append, List.mem_cons, List.not_mem_nil, or_false] at hw
+              rcases hw with rfl | rfl | rfl | rfl | rfl | rfl | rfl <;> first | decide | exact w16_lt _)]
+            rfl
+          have hr1' : readClassAt b G.1 = .ok r1 := by rw [← hb']; simpa [List.append_assoc] using hr1
+          have hr2' : readClassAt b M.1 = .ok r2 := by rw [← hb']; simpa [List.append_assoc] using hr2
+          -- the mark glyph sets
+          have hmgs : readMgs b M.2 = .ok (some ss) := by
+            have hpre : (wordsToBytes ([1, 2, w16 G.1, 0, 0, w16 M.1] ++ [w16 M.2]) ++ B1 ++ B2).length = M.2 := by
+              simp only [List.length_append, hH]; omega
+            have hne : (M.2 != 0) = true := by simp only [bne_iff_ne, ne_eq]; omega
+            have hdrop : bytesToWords (b.drop M.2) = 1 :: ss.length :: (offs ++ bytesToWords cb) := by
+              have e : b = (wordsToBytes ([1, 2, w16 G.1, 0, 0, w16 M.1] ++ [w16 M.2]) ++ B1 ++ B2) ++
+                  (wordsToBytes ([1, w16 ss.length] ++ offs) ++ cb) := by
+                rw [← hb']; simp only [List.append_assoc]
+              have hd : b.drop M.2 = wordsToBytes ([1, w16 ss.length] ++ offs) ++ cb := by
+                have := List.drop_left
+                  (l₁ := wordsToBytes ([1, 2, w16 G.1, 0, 0, w16 M.1] ++ [w16 M.2]) ++ B1 ++ B2)
+                  (l₂ := wordsToBytes ([1, w16 ss.length] ++ offs) ++ cb)
+                rw [hpre, ← e] at this
+                exact this
+              rw [hd,
+                bytesToWords_append _ (by
+                  intro w hw
+                  simp only [List.cons_append, List.nil_append, List.mem_cons] at hw
+                  rcases hw with rfl | rfl | hw
+                  · decide
+                  · exact w16_lt _
+                  · exact holt w hw), w16_of_lt hn]
+              rfl
+            have hrs := readSets_spec M.2 ss
+              (wordsToBytes ([1, 2, w16 G.1, 0, 0, w16 M.1] ++ [w16 M.2]) ++ B1 ++ B2 ++
+                wordsToBytes ([1, w16 ss.length] ++ offs)) [] (4 + 4 * ss.length) hv
+              (by simp only [List.length_append, hH, length_wordsToBytes, List.length_cons,
+                    List.length_nil, hol]
+                  simp only [List.length_append, hH] at hpre
+                  omega)
+            rw [← hcb, List.append_nil, hb'] at hrs
+            simp only [readMgs, hne, if_true, hdrop]
+            have hlen : ¬ (offs ++ bytesToWords cb).length < 2 * ss.length := by
+              simp [hol]
+            have htake : (offs ++ bytesToWords cb).take (2 * ss.length) = offs := by
+              rw [← hol]; exact List.take_left
+            simp only [hlen, if_false, htake, hpair, hrs]
+            simp
+          refine ⟨⟨r1, r2, some ss⟩, ?_, hm1, hm2, rfl⟩
+          simp only [read, hw, List.cons_append, List.nil_append]
+          rw [w16_of_lt hgoff, w16_of_lt (show M.1 < 65536 by omega), w16_of_lt (show M.2 < 65536 by omega)]
+          simp [hr1', hr2', hmgs]
+
+end Gdef
 end SfntV.Otl
